@@ -41,6 +41,8 @@ type reqRec struct {
 	EndT      time.Time
 	Stmts     []*sqlfake.Stmt
 	Path      string
+	// ByPosition: no statement carried the request's context; the statements were attributed by position
+	ByPosition bool
 }
 
 type respWriter struct {
@@ -80,6 +82,8 @@ type runState struct {
 	reqs []*reqRec
 	db   *sqlfake.DB
 	next int
+	// concurrent: several clients translate at once, statements can only be attributed by context
+	concurrent bool
 }
 
 // RunRead executes a reader scenario and evaluates the oracles of C12 and C15.
@@ -291,8 +295,9 @@ func (st *runState) client(sys *System, ci int, reqs []Req) {
 		rec.Returned = true
 		rec.EndT = time.Now()
 		rec.Stmts = st.db.ForScript(&res, from)
-		if len(rec.Stmts) == 0 && len(st.s.Clients) <= 1 {
+		if len(rec.Stmts) == 0 && len(st.s.Clients) <= 1 && !st.concurrent {
 			rec.Stmts = st.db.Since(from)
+			rec.ByPosition = len(rec.Stmts) > 0
 		}
 		if rec.Panicked == "" && rec.Status == 0 {
 			rec.Status = 200
